@@ -1,7 +1,7 @@
 import Ldap3V.Driver.Util
 import Ldap3V.Model.Escape
 import Ldap3V.Spec.Dn
-namespace Ldap3V.Driver
+namespace Ldap3V.Driver.EscapeD
 open Ldap3V
 
 def showEsc : EscOutcome → String
@@ -48,4 +48,8 @@ def handleEscape (cmd arg : String) : Option String :=
       | none => "bad-request")
   | _ => none
 
+end Ldap3V.Driver.EscapeD
+
+namespace Ldap3V.Driver
+def handleEscape := EscapeD.handleEscape
 end Ldap3V.Driver
